@@ -787,3 +787,29 @@ package bus
 //@   call saveProperty#1: assert[C14] o.validated == old(o.validated) + 1 && o.signalHandler.propevents == old(o.signalHandler.propevents)
 //@   call saveProperty#1: assert[C14] declared == sig || declared == "(" + sig + ")" || "(" + declared + ")" == sig
 //@   call UpdateProperty#1: assert[C14] has(o.properties, nameStr) && o.properties[nameStr] == newValue && arg0 == id
+
+// ---- server: table of live connections (C12: the server process stays up). Connections are
+// accepted, closed and enumerated from different goroutines (accept loop, per-connection closers
+// started by the endpoint, Terminate); every access to the table is made under contextsMutex.
+//@ guarded_by (s *server) s.contextsMutex: s.contexts, s.contexts[*]
+//@   monitor s.contexts != nil
+//@ func (s *server) handle$3(err error)
+//@   tags C12
+//@   requires s != nil && !s.contextsMutex.lockw
+//@   modifies everything
+//@   ensures !s.contextsMutex.lockw
+//@ func (s *server) handle$4(e net.EndPoint)
+//@   tags C12
+//@   requires s != nil && context != nil && e != nil && !s.contextsMutex.lockw
+//@   modifies everything
+//@   ensures !s.contextsMutex.lockw
+// (nosafety: that every key of the table is a non-nil channel cannot be stated - quantifiers over
+// interface-typed map keys are outside the contract language; lock-state and guard obligations only)
+//@ func (s *server) closeAll() (ret error)
+//@   tags C12
+//@   nosafety
+//@   requires s != nil && !s.contextsMutex.lockw
+//@   modifies everything
+//@   ensures !s.contextsMutex.lockw
+//@   loop 1:
+//@     invariant s.contextsMutex.lockw && s.contexts != nil
